@@ -16,7 +16,7 @@ EXTENDS Service
 
 VARIABLES
     ev,     \* the event of the step that led here
-    hist    \* id -> [created, lastStart, maxTotal, stable]
+    hist    \* id -> [created, lastStart, maxTotal, stable, starts]
 
 pvars == <<vars, ev, hist>>
 
@@ -28,7 +28,7 @@ MsgNames == {"Define", "Bind", "UpdateBinding", "Disable", "Enable", "RefundDepo
 ModNames == {"ModCreate", "ModPause", "ModStart", "ModKill", "ModUpdate"}
 SubNames == {"BeginEndBlock", "ExpireBatch", "Mid", "StartBatch", "EndBlock"}
 \* events that are not steps of the system: start of a new history, observation of the state
-MetaNames == {"reset", "restore", "Obs", "PrepZeroHeight", "Genesis"}
+MetaNames == {"reset", "restore", "Obs", "PrepZeroHeight", "Genesis", "Restart"}
 \* (zero-height preparation and export end a history: the chain stops there, and only C19 and
 \* C20 speak about those two steps)
 
@@ -57,16 +57,26 @@ HistInit == <<>>
 
 \* after a "restore" (the exhaustive search of the implementation returns to an earlier node) the
 \* past of the existing contexts is not known to the monitor: nothing is assumed about it
-HistUnknown(cx) == [id \in DOMAIN cx |-> [created |-> -1, lastStart |-> -1, maxTotal |-> INF, stable |-> FALSE]]
+HistUnknown(cx) == [id \in DOMAIN cx |-> [created |-> -1, lastStart |-> -1, maxTotal |-> INF, stable |-> FALSE,
+                                            starts |-> cx[id].batch]]
+
+\* a restart from a zero-height export: the contexts live on with their totals and the batches they
+\* have had; where they were in their cadence is forgotten
+HistRestart(cx) ==
+    [id \in DOMAIN cx |->
+        IF id \in DOMAIN hist
+        THEN [hist[id] EXCEPT !.created = -1, !.lastStart = -1, !.stable = FALSE]
+        ELSE HistUnknown(cx)[id]]
 
 \* computed from the step (vars, vars'); never read by Service's actions
 HistNext ==
     [id \in DOMAIN ctx' |->
         IF id \notin DOMAIN ctx
         THEN [created |-> height, lastStart |-> -1,
-              maxTotal |-> IF ctx'[id].rep THEN ctx'[id].total ELSE 1, stable |-> FALSE]
+              maxTotal |-> IF ctx'[id].rep THEN ctx'[id].total ELSE 1, stable |-> FALSE, starts |-> 0]
         ELSE LET h == IF id \in DOMAIN hist THEN hist[id]
-                      ELSE [created |-> -1, lastStart |-> -1, maxTotal |-> INF, stable |-> FALSE]
+                      ELSE [created |-> -1, lastStart |-> -1, maxTotal |-> INF, stable |-> FALSE,
+                            starts |-> ctx[id].batch]
                  o == ctx[id]
                  n == ctx'[id]
                  started == n.batch > o.batch
@@ -75,7 +85,8 @@ HistNext ==
                  maxTotal |-> IF n.rep THEN TotMax(h.maxTotal, n.total) ELSE h.maxTotal,
                  stable   |-> /\ n.state = "running"
                               /\ n.timeout = o.timeout /\ n.freq = o.freq
-                              /\ (started \/ h.stable)]]
+                              /\ (started \/ h.stable),
+                 starts   |-> IF started THEN h.starts + 1 ELSE h.starts]]
 
 -----------------------------------------------------------------------------
 (* C01  escrowed service fees are always exactly backed *)
@@ -386,7 +397,11 @@ Step_C09 ==
             /\ (e.name \in {"Start", "ModStart"} /\ e.ok /\ onMe) => (o.state = "paused" /\ n.state = "running")
             /\ (e.name \in {"Kill", "ModKill"} /\ e.ok /\ onMe) => (o.rep /\ n.state = "completed")
             /\ (e.name \in {"UpdateContext", "ModUpdate"} /\ e.ok /\ onMe) => o.state # "completed"
-    /\ \A id \in (DOMAIN ctx) \ (DOMAIN ctx') : e.name = "ExpireBatch" /\ e.id = id
+    \* a context ends at the expiry of a batch - or, restarted after a zero-height export with all its
+    \* batches behind it, when it comes up for another
+    /\ \A id \in (DOMAIN ctx) \ (DOMAIN ctx') :
+         \/ e.name = "ExpireBatch" /\ e.id = id
+         \/ e.name = "StartBatch" /\ e.id = id /\ ctx[id].state = "running" /\ Exhausted(ctx[id])
     /\ \A id \in (DOMAIN ctx') \ (DOMAIN ctx) :
          /\ e.name \in {"Call", "ModCreate"} /\ e.ok
          /\ ctx'[id].batch = 0
@@ -409,7 +424,9 @@ Inv_C10 ==
     \A id \in DOMAIN ctx :
         /\ (~ctx[id].rep => ctx[id].batch <= 1)
         /\ (ctx[id].rep /\ id \in DOMAIN hist /\ hist[id].maxTotal # INF) =>
-               ctx[id].batch <= hist[id].maxTotal
+               /\ ctx[id].batch <= hist[id].maxTotal
+               /\ hist[id].starts <= hist[id].maxTotal      \* (counted by the observer, across restarts)
+        /\ (~ctx[id].rep /\ id \in DOMAIN hist) => hist[id].starts <= 1
 
 Step_C10 ==
     LET e == ev' IN
